@@ -59,3 +59,7 @@ impl<'a> WordParams<'a> {
         self.data.set(cost_offset, cost)
     }
 }
+
+// verification hook: harness text lives outside the repository (see MANIFEST.hooks)
+#[cfg(any(kani, sudachi_verif))]
+include!(concat!(env!("SUDACHI_VERIF_DIR"), "/dic__lexicon__word_params.rs"));
